@@ -113,6 +113,7 @@ structure Rel where
   parentFams : List (Option Nat × Option Nat) := []                  -- families where the person is only a child
   spouses : List (Option Nat × Option (List (Option Nat))) := []     -- `Spouses()` with the children of `FamilyWithSpouse`
   unknownFams : List (List (Option Nat)) := []                       -- families with one partner node missing: their children
+  evTags : List Str := []                                            -- which events the record has: `Tag().String()` of `AllEvents()`, in order (what `EventStatistics` counts; see Model/PagesStats.lean)
 deriving DecidableEq, Repr, Inhabited
 
 structure PPerson where
